@@ -377,6 +377,13 @@ impl<'a> L2<'a> {
                 }
                 format!("(({e}) == ({sn}){x:#x}ull)")
             }
+            (Ty::Own(_) | Ty::Borrow(_), Val::Handle(h)) => {
+                match self.struct_fields(cty)? {
+                    [Field::Plain(t, n)] if n == "__handle" && t.base == "int32_t" && t.ptr == 0 => {}
+                    _ => return None,
+                }
+                format!("(({e}).__handle == (int32_t){h:#x})")
+            }
             (Ty::Option(it), Val::Variant(i, p)) => {
                 let cf = self.struct_fields(cty)?;
                 let vt = match cf {
@@ -560,7 +567,7 @@ pub fn echo_exports(
         }
         writeln!(o, "  verif_vt.mark(2, {k});").unwrap();
         // level 2: result (as received from the import; `ret` / `err` are shared with the export)
-        let ret_exprs: Option<Vec<String>> = if want_level2 {
+        let ret_exprs: Option<Vec<String>> = if want_level2 && f.has_result() {
             (0..f.values.len())
                 .map(|c| ret_check(&l2, &f.ty, f.answer(c), &imp.ret, &exp.params[1..], cfg))
                 .collect()
@@ -577,6 +584,9 @@ pub fn echo_exports(
         // free the owned argument: with the export-side helper on even cases, with the import-side
         // helper of the layout-identical twin type on odd cases (so both families of helpers run)
         let (pt, pn) = &exp.params[0];
+        // (the helper also drops the handles inside the value; in this world handles are plain
+        // numbers and `[resource-drop]` is a counted no-op of the host: handle ownership is judged
+        // in the resource world, here only the buffers are)
         if pt.ptr == 1 {
             let guard = if pn.starts_with("maybe_") { format!("if ({pn}) ") } else { String::new() };
             let eh = free_helper(hdr, &pt.deref());
